@@ -21,62 +21,61 @@ Lemma udiv_half_ok r np d d1 d0 :
   0 <= q < HB /\ 0 <= r' < d /\ r * HB + np = q * d + r'.
 Proof.
   intros Ed Hn Hd1 Hd0 Hr Hnp. unfold udiv_half.
-  assert (HHB : 0 < HB) by (rewrite HB_eq; lia).
-  assert (Hd1p : 0 < d1) by lia.
+  assert (Hd1p : 0 < d1) by (rewrite HB_eq in *; lia).
   pose proof (Z.div_mod r d1 ltac:(lia)) as Er. pose proof (Z.mod_pos_bound r d1 Hd1p) as Rr1.
   set (q := r / d1) in *. set (r1 := r mod d1) in *.
   assert (Hq0 : 0 <= q) by (apply Z.div_pos; lia).
   assert (Hq : q <= HB + 1).
-  { destruct (Z.le_gt_cases q (HB + 1)); [assumption|exfalso]. clear - Er Rr1 Hr Ed Hn Hd0 H Hd1p HHB. nia. }
+  { destruct (Z.le_gt_cases q (HB + 1)); [assumption|exfalso]. rewrite HB_eq in *. clear - Er Rr1 Hr Ed Hn Hd0 H Hd1p. nia. }
   assert (Er1 : r - q * d1 = r1) by lia.
-  rewrite Er1. rewrite (modW_small r1) by (rewrite W_HB; nia).
+  rewrite Er1.
   set (M := q * d0) in *.
-  assert (RM : 0 <= M < W) by (subst M; rewrite W_HB; clear - Hq0 Hq Hd0 HHB; nia).
-  rewrite (modW_small M) by assumption.
-  rewrite lor_half by lia.
+  assert (RM : 0 <= M < W) by (subst M; rewrite W_eq; rewrite HB_eq in *; clear - Hq0 Hq Hd0; nia).
   assert (Eqd : q * d = (r - r1) * HB + M) by (subst M; rewrite Ed; lia).
-  set (X := r1 * HB + np - M) in *.
-  assert (HW2 : W <= 2 * d) by (rewrite W_HB, Ed; nia).
-  assert (HdW : d < W) by (rewrite W_HB, Ed; nia).
-  assert (RX : - (2 * d) < X < d) by (subst X; rewrite Ed; nia).
-  assert (EX : r * HB + np = q * d + X) by (subst X; lia).
   assert (Hqf : forall qf rf, r * HB + np = qf * d + rf -> 0 <= rf < d -> 0 <= qf < HB).
-  { intros qf rf E R. clear - E R Hr Hnp HHB. split; nia. }
-  assert (Rlo : 0 <= r1 * HB + np < W) by (rewrite W_HB; nia).
-  destruct (Z.ltb_spec (r1 * HB + np) M) as [Hneg|Hpos].
-  - (* X < 0: first correction *)
-    assert (Hq1 : 1 <= q).
-    { destruct (Z.le_gt_cases 1 q); [assumption|exfalso]. assert (q = 0) by lia. subst M. rewrite H0 in *. lia. }
-    rewrite (modW_small (q - 1)) by (rewrite W_HB; nia).
-    set (V1 := r1 * HB + np + d) in *.
-    destruct (Z.le_gt_cases W V1) as [Hwrap|Hnowrap].
-    + (* the addition wrapped: the remainder is already non-negative *)
-      rewrite (modW_add V1) by lia.
-      destruct (Z.leb_spec d (V1 - W)) as [Hc|Hc]; [lia|]. cbn [andb].
-      rewrite (modW_sub (V1 - W - M)) by lia.
-      assert (Efin : r * HB + np = (q - 1) * d + (V1 - W - M + W)) by (subst V1 X; lia).
-      pose proof (Hqf _ _ Efin ltac:(subst V1 X; lia)). split; [lia|]. split; [subst V1 X; lia | exact Efin].
-    + rewrite (modW_small V1) by (subst V1; lia).
+  { intros qf rf E R. rewrite HB_eq in *. clear - E R Hr Hnp. split; nia. }
+  assert (Hq1 : r1 * HB + np < M -> 1 <= q).
+  { intros Hneg. destruct (Z.le_gt_cases 1 q); [assumption|exfalso]. assert (E0 : q = 0) by lia. subst M. rewrite E0 in *. rewrite HB_eq in *. lia. }
+  assert (Hq2 : r1 * HB + np + d < M -> 2 <= q).
+  { intros Hneg. destruct (Z.le_gt_cases 2 q); [assumption|exfalso]. specialize (Hq1 ltac:(lia)). assert (E1 : q = 1) by lia. rewrite E1 in *. rewrite HB_eq in *. lia. }
+  rewrite (modW_small r1) by (rewrite W_eq; rewrite HB_eq in *; lia).
+  rewrite lor_half by (rewrite HB_eq in *; lia).
+  rewrite (modW_small M) by assumption.
+  (* from here on everything is linear: M, q*d are atoms *)
+  set (QD := q * d) in *.
+  assert (Hlin : forall j, (q - j) * d = QD - j * d) by (intros; subst QD; ring).
+  rewrite W_eq in *. rewrite HB_eq in *.
+  destruct (Z.ltb_spec (r1 * 4294967296 + np) M) as [Hneg|Hpos].
+  - specialize (Hq1 Hneg).
+    rewrite (modW_small (q - 1)) by (rewrite W_eq; lia).
+    set (V1 := r1 * 4294967296 + np + d) in *.
+    destruct (Z.le_gt_cases 18446744073709551616 V1) as [Hwrap|Hnowrap].
+    + rewrite (modW_add V1) by (rewrite W_eq; subst V1; lia).
+      rewrite W_eq. destruct (Z.leb_spec d (V1 - 18446744073709551616)) as [Hc|Hc]; [subst V1; lia|]. cbn [andb].
+      rewrite (modW_sub (V1 - 18446744073709551616 - M)) by (rewrite W_eq; subst V1; lia). rewrite W_eq.
+      assert (Efin : r * 4294967296 + np = (q - 1) * d + (V1 - 18446744073709551616 - M + 18446744073709551616)) by (rewrite Hlin; subst V1; lia).
+      pose proof (Hqf _ _ Efin ltac:(subst V1; lia)). split; [lia|]. split; [subst V1; lia | exact Efin].
+    + rewrite (modW_small V1) by (rewrite W_eq; subst V1; lia).
       destruct (Z.leb_spec d V1) as [Hc|Hc]; [|subst V1; lia]. cbn [andb].
       destruct (Z.ltb_spec V1 M) as [Hneg2|Hpos2].
-      * (* second correction *)
-        assert (Hq2 : 2 <= q).
-        { destruct (Z.le_gt_cases 2 q); [assumption|exfalso]. assert (q = 1) by lia. rewrite H0 in *. subst V1 X. lia. }
-        rewrite (modW_small (q - 1 - 1)) by (rewrite W_HB; nia).
+      * specialize (Hq2 Hneg2).
+        rewrite (modW_small (q - 1 - 1)) by (rewrite W_eq; lia).
         set (V2 := V1 + d) in *.
-        assert (Efin : r * HB + np = (q - 1 - 1) * d + (V2 - M)) by (subst V2 V1 X; lia).
-        assert (RV2 : 0 <= V2 - M < d) by (subst V2 V1 X; lia).
+        assert (Efin : r * 4294967296 + np = (q - 1 - 1) * d + (V2 - M)) by (replace (q - 1 - 1) with (q - 2) by lia; rewrite Hlin; subst V2 V1; lia).
+        assert (RV2 : 0 <= V2 - M < d) by (subst V2 V1; lia).
         pose proof (Hqf _ _ Efin RV2).
-        destruct (Z.le_gt_cases W V2) as [Hw2|Hw2].
-        -- rewrite (modW_add V2) by (subst V2 V1; lia). rewrite (modW_sub (V2 - W - M)) by lia.
-           replace (V2 - W - M + W) with (V2 - M) by lia. split; [lia|]. split; [lia | exact Efin].
-        -- rewrite (modW_small V2) by (subst V2 V1; lia). rewrite (modW_small (V2 - M)) by lia.
+        destruct (Z.le_gt_cases 18446744073709551616 V2) as [Hw2|Hw2].
+        -- rewrite (modW_add V2) by (rewrite W_eq; subst V2 V1; lia). rewrite W_eq.
+           rewrite (modW_sub (V2 - 18446744073709551616 - M)) by (rewrite W_eq; lia). rewrite W_eq.
+           replace (V2 - 18446744073709551616 - M + 18446744073709551616) with (V2 - M) by lia. split; [lia|]. split; [lia | exact Efin].
+        -- rewrite (modW_small V2) by (rewrite W_eq; subst V2 V1; lia). rewrite (modW_small (V2 - M)) by (rewrite W_eq; lia).
            split; [lia|]. split; [lia | exact Efin].
-      * rewrite (modW_small (V1 - M)) by lia.
-        assert (Efin : r * HB + np = (q - 1) * d + (V1 - M)) by (subst V1 X; lia).
-        pose proof (Hqf _ _ Efin ltac:(subst V1 X; lia)). split; [lia|]. split; [subst V1 X; lia | exact Efin].
-  - rewrite (modW_small (r1 * HB + np - M)) by lia.
-    pose proof (Hqf _ _ EX ltac:(subst X; lia)). split; [lia|]. split; [subst X; lia | exact EX].
+      * rewrite (modW_small (V1 - M)) by (rewrite W_eq; subst V1; lia).
+        assert (Efin : r * 4294967296 + np = (q - 1) * d + (V1 - M)) by (rewrite Hlin; subst V1; lia).
+        pose proof (Hqf _ _ Efin ltac:(subst V1; lia)). split; [lia|]. split; [subst V1; lia | exact Efin].
+  - rewrite (modW_small (r1 * 4294967296 + np - M)) by (rewrite W_eq; lia).
+    assert (EX : r * 4294967296 + np = q * d + (r1 * 4294967296 + np - M)) by (fold QD; lia).
+    pose proof (Hqf _ _ EX ltac:(lia)). split; [lia|]. split; [lia | exact EX].
 Qed.
 
 Lemma udiv_qrnnd_ok : udiv_ok udiv_qrnnd.
@@ -91,15 +90,15 @@ Proof.
   pose proof (Z.div_mod d HB ltac:(lia)) as Ed. pose proof (Z.mod_pos_bound d HB HHB) as Rd0.
   pose proof (Z.div_mod n0 HB ltac:(lia)) as En. pose proof (Z.mod_pos_bound n0 HB HHB) as Rn0.
   set (d1 := d / HB) in *. set (d0 := d mod HB) in *. set (nh := n0 / HB) in *. set (nl := n0 mod HB) in *.
-  rewrite W_HB in *.
-  assert (Hd1 : HB <= 2 * d1 /\ d1 < HB) by (clear - Ed Rd0 HdW Hnorm HHB; nia).
-  assert (Rnh : 0 <= nh < HB) by (clear - En Rn0 Hn0 HHB; nia).
+  assert (Hd1 : HB <= 2 * d1 /\ d1 < HB) by (rewrite W_eq, HB_eq in *; clear - Ed Rd0 HdW Hnorm; lia).
+  assert (Rnh : 0 <= nh < HB) by (rewrite W_eq, HB_eq in *; clear - En Rn0 Hn0; lia).
   assert (Ed' : d = d1 * HB + d0) by lia.
   pose proof (udiv_half_ok n1 nh d d1 d0 Ed' (proj1 Hd1) (proj2 Hd1) Rd0 Hn1 Rnh) as H1.
   destruct (udiv_half n1 nh d d1 d0) as [q1 r1]. destruct H1 as (Rq1 & Rr1 & Eq1).
   pose proof (udiv_half_ok r1 nl d d1 d0 Ed' (proj1 Hd1) (proj2 Hd1) Rd0 Rr1 Rn0) as H0.
   destruct (udiv_half r1 nl d d1 d0) as [q0 r0]. destruct H0 as (Rq0 & Rr0 & Eq0).
   cbn [fst snd]. rewrite lor_half by lia.
-  split; [clear - Rq1 Rq0 HHB; nia|]. split; [lia|].
-  rewrite En. clear - Eq1 Eq0. mulhyp Eq1 HB. lia.
+  rewrite W_eq, HB_eq in *.
+  split; [lia|]. split; [lia|].
+  rewrite En. clear - Eq1 Eq0. lia.
 Qed.
